@@ -97,3 +97,92 @@ func VerifH_ScanRangeComplete() {
 	verifrt.Assert(bytes.Compare(lo, key) <= 0, "row key not below the scan range")
 	verifrt.Assert(bytes.Compare(key, hi) <= 0, "row key not above the scan range")
 }
+
+// verifLeaf builds one atomic predicate over the columns of the table and returns it with its
+// truth value on the symbolic row: `col op const`, `const op col` (constant on the left) or
+// `col [NOT] IN (c1, c2)`.
+func verifLeaf(names []string, row []int64) (ValueExp, bool) {
+	ci := 0
+	if len(names) > 1 && verifrt.Bool("leaf.col") {
+		ci = 1
+	}
+	sel := &ColSelector{col: names[ci]}
+	v := row[ci]
+	c := verifrt.I64("leaf.const")
+	switch verifrt.Byte("leaf.kind") % 3 {
+	case 0:
+		op := verifOp(verifrt.Byte("leaf.op"))
+		return &CmpBoolExp{op: op, left: sel, right: &Integer{val: c}}, verifHolds(v, c, op)
+	case 1:
+		op := verifOp(verifrt.Byte("leaf.op"))
+		return &CmpBoolExp{op: op, left: &Integer{val: c}, right: sel}, verifHolds(c, v, op)
+	}
+	c2 := verifrt.I64("leaf.const2")
+	notIn := verifrt.Bool("leaf.notIn")
+	in := v == c || v == c2
+	return &InListExp{val: sel, notIn: notIn, values: []ValueExp{&Integer{val: c}, &Integer{val: c2}}}, in != notIn
+}
+
+// VerifH_WhereRangesComplete: the same completeness obligation one level up, from the WHERE
+// expression tree: the real selectorRanges of CmpBoolExp / InListExp / BinBoolExp (AND folds
+// into the same map, OR goes through extendWith) / NotBoolExp derive the ranges, the real
+// keyReaderSpecFrom turns them into the scan interval; every row on which the expression is
+// true has its index key inside the interval.
+func VerifH_WhereRangesComplete() {
+	ncols, tree := verifrt.Param("ncols"), verifrt.Param("tree")
+	desc := verifrt.Param("desc") == 1
+	table, idx := verifIntIndex(ncols)
+	table.name = "t"
+	table.colsByName = map[string]*Column{}
+	names := []string{"a", "b"}[:ncols]
+	for i, c := range idx.cols {
+		c.colName = names[i]
+		table.colsByName[names[i]] = c
+	}
+	row := make([]int64, ncols)
+	for i := range row {
+		row[i] = verifrt.I64("row")
+	}
+	var exp ValueExp
+	var truth bool
+	l1, t1 := verifLeaf(names, row)
+	switch tree {
+	case 0:
+		exp, truth = l1, t1
+	case 1:
+		l2, t2 := verifLeaf(names, row)
+		exp, truth = &BinBoolExp{op: And, left: l1, right: l2}, t1 && t2
+	case 2:
+		l2, t2 := verifLeaf(names, row)
+		exp, truth = &BinBoolExp{op: Or, left: l1, right: l2}, t1 || t2
+	case 3:
+		l2, t2 := verifLeaf(names, row)
+		l3, t3 := verifLeaf(names, row)
+		exp, truth = &BinBoolExp{op: And, left: &BinBoolExp{op: Or, left: l1, right: l2}, right: l3}, (t1 || t2) && t3
+	default:
+		l2, t2 := verifLeaf(names, row)
+		exp, truth = &BinBoolExp{op: And, left: &NotBoolExp{exp: l1}, right: l2}, !t1 && t2
+	}
+	verifrt.Assume(truth)
+	ranges := map[uint32]*typedValueRange{}
+	err := exp.selectorRanges(table, "t", nil, ranges)
+	verifrt.Assert(err == nil, "ranges derived from the expression")
+	spec, err := keyReaderSpecFrom([]byte{9}, table, &ScanSpecs{Index: idx, rangesByColID: ranges, DescOrder: desc})
+	verifrt.Assert(err == nil, "key reader spec derived")
+	verifrt.Reach("row satisfies the expression")
+	key := append([]byte(nil), spec.Prefix...)
+	for i := range row {
+		enc, _, err := EncodeValueAsKey(&Integer{val: row[i]}, IntegerType, 8)
+		verifrt.Assert(err == nil, "row value encodes")
+		key = append(key, enc...)
+	}
+	key = append(key, verifrt.Bytes("pkSuffix", 2)...)
+	verifrt.Assume(key[len(key)-2] < KeyValPrefixUpperBound)
+	lo, hi := spec.SeekKey, spec.EndKey
+	if desc {
+		lo, hi = hi, lo
+	}
+	verifrt.Assert(bytes.HasPrefix(key, spec.Prefix), "row key under the scan prefix")
+	verifrt.Assert(bytes.Compare(lo, key) <= 0, "row key not below the scan range")
+	verifrt.Assert(bytes.Compare(key, hi) <= 0, "row key not above the scan range")
+}
